@@ -91,15 +91,23 @@ Section C08.
 
   (* ... and a recorded file that changed (other version, or gone) invalidates it *)
   Theorem C08_changed_file_invalidates : forall (ts : tstate) (t : vtree) f v,
-    In (f, v) ts -> alookup f t <> Some v -> cts_valid ts t = false.
+    In (f, v) (fst ts) -> alookup f t <> Some v -> cts_valid ts t = false.
   Proof. exact changed_file_invalidates. Qed.
+
+  (* ... and so does a file that appears where the loader had looked for one and found none (a
+     lazefile candidate of an import that takes precedence over the one that was loaded; fix d85df0c) *)
+  Theorem C08_appeared_file_invalidates : forall (ts : tstate) (t : vtree) f,
+    In f (snd ts) -> alookup f t <> None -> cts_valid ts t = false.
+  Proof. exact appeared_file_invalidates. Qed.
 
   (* An unchanged project with an identical command line is served from the cache. *)
   Theorem C08_identical_command_line_hits : forall a (w w1 : world) r,
     crun H EV bd store a 0 w = (w1, ORegen r) -> exists k, crun H EV bd store a k w1 = (w1, OHit (cview a r)).
   Proof. exact (identical_command_line_hits H EV bd store). Qed.
 
-  (* The loader reads only the files it records. *)
+  (* The loader reads only the files it records, and depends on the absence only of the files it
+     records as absent: `imports:` included (the lazefile of an imported directory is the first of
+     laze-lib.yml, laze.yml, laze-project.yml that exists). *)
   Theorem C08_load_frame : forall t1 t2 ts, cload_ts bd store t1 = Ok ts -> cts_valid ts t2 = true ->
     cload_ts bd store t2 = Ok ts /\ load (ytree_of store t2) project_file bd = load (ytree_of store t1) project_file bd.
   Proof. exact (load_frame_holds bd store). Qed.
@@ -110,6 +118,7 @@ Print Assumptions C08_hit_builds_ordered.
 Print Assumptions C08_hit_with_partition.
 Print Assumptions C08_never_after_change.
 Print Assumptions C08_changed_file_invalidates.
+Print Assumptions C08_appeared_file_invalidates.
 Print Assumptions C08_identical_command_line_hits.
 Print Assumptions C08_load_frame.
 
@@ -131,3 +140,38 @@ Example C08_hit_exists :
   let w1 := fst (run 1 0 (fresh nat nat nat nat 5)) in
   snd (run 1 0 w1) = OHit 6.
 Proof. reflexivity. Qed.
+
+(* Without the record of absent files the frame does not hold (the tree before fix d85df0c): two
+   trees that agree on every file the loader read, where the second has a lazefile of higher
+   precedence in the imported directory, load differently. *)
+Example C08_absent_files_needed :
+  let dproj := {| d_contexts := None; d_builders := None; d_modules := None; d_apps := None;
+                  d_includes := None; d_subdirs := None; d_defaults_module := None; d_defaults_app := None;
+                  d_imports := Some [S_ "lib"] |} in
+  let dmod := fun n => {| d_contexts := None; d_builders := None;
+                  d_modules := Some (Some [{| ym_name := Some n; ym_context := CNone; ym_depends := None; ym_selects := None;
+                     ym_uses := None; ym_provides := None; ym_provides_unique := None; ym_conflicts := None; ym_notify_all := false;
+                     ym_sources := None; ym_tasks := None; ym_build := None; ym_env_local := None; ym_env_export := None;
+                     ym_env_global := None; ym_blocklist := None; ym_allowlist := None; ym_srcdir := None;
+                     ym_is_build_dep := false; ym_is_global_build_dep := false; ym_download := None |}]);
+                  d_apps := None; d_includes := None; d_subdirs := None; d_defaults_module := None; d_defaults_app := None;
+                  d_imports := None |} in
+  let store := fun (f : str) (v : N) =>
+     if str_eqb f (S_ "laze-project.yml") then [dproj]
+     else if str_eqb f (S_ "lib/laze.yml") then [dmod (S_ "old")] else [dmod (S_ "new")] in
+  let t1 := [(S_ "laze-project.yml", 1%N); (S_ "lib/laze.yml", 1%N)] in
+  let t2 := t1 ++ [(S_ "lib/laze-lib.yml", 1%N)] in
+  match cload_ts (S_ "build") store t1 with
+  | Ok ts =>
+      (* every recorded file is unchanged in t2 ... *)
+      forallb (fun fv => match alookup (fst fv) t2 with Some v => N.eqb v (snd fv) | None => false end) (fst ts) = true /\
+      (* ... only the recorded absence is violated ... *)
+      snd ts = [S_ "lib/laze-lib.yml"] /\ cts_valid ts t2 = false /\
+      (* ... and the two trees load different projects *)
+      match load (ytree_of store t1) project_file (S_ "build"), load (ytree_of store t2) project_file (S_ "build") with
+      | Ok b1, Ok b2 => map (fun c => map fst (c_modules c)) b1 <> map (fun c => map fst (c_modules c)) b2
+      | _, _ => False
+      end
+  | _ => False
+  end.
+Proof. vm_compute. repeat split; try reflexivity. discriminate. Qed.
